@@ -63,7 +63,7 @@ QExact(rule, l) ==
       [] rule = "gauss-patterson" -> IF l = 0 THEN 1 ELSE 3 * Pow2(l) - 1
       [] rule = "clenshaw-curtis" -> IF l = 0 THEN 1 ELSE Pow2(l) + 1
       [] rule = "clenshaw-curtis-zero" -> IF l = 0 THEN 1 ELSE Pow2(l + 1) + 1
-      [] rule = "chebyshev" -> l + 1
+      [] rule = "chebyshev" -> IF l % 2 = 0 THEN l + 1 ELSE l      \* l + 1 points: the symmetric bonus degree only for an odd number of points
       [] rule = "rleja-double2" -> NumPoints(rule, l)
       [] rule = "rleja-double4" -> NumPoints(rule, l) - 1
       [] rule = "fejer2" -> Pow2(l + 1) - 1
